@@ -611,10 +611,8 @@ theorem t_teardown {w : World} (i : Nat) (s : Sess) (hn : NInv w.clock (w.node i
   rw [teardown_eq]
   have hb := t_tdBase i s hn h hs
   split
+  · exact tx_sessDelete hb _ _
   · exact hb
-  · split
-    · exact hb
-    · exact tx_sessDelete hb _ _
 
 theorem t_shutdown {w : World} (i : Nat) (sid : String) (hn : NInv w.clock (w.node i)) (h : T w) :
     T (w.shutdownSession i sid) := by
